@@ -268,6 +268,31 @@ class Symex:
     call; ``opaque_attr``: attribute reads on terms stay terms (always).
     """
 
+    # hash-order provenance (opt-in, set after construction): ``set_order`` = 0 | 1 iterates every concrete set / frozenset
+    # in a canonical order (0) or its reverse (1) - also for list()/tuple()/sorted()/zip()/join and set.pop() - instead of
+    # CPython's hash order; ``iter_log`` (dict) receives id(iteration node) -> [sequence of element keys per execution], so
+    # that two runs with the two orders show which iteration sites the hash order reaches and whether the result depends on it
+    set_order = None
+    iter_log = None
+
+    @staticmethod
+    def order_key(x):
+        if isinstance(x, Obj):
+            return "O:" + str(x.name)
+        if isinstance(x, (tuple, list)):
+            return "(" + ",".join(Symex.order_key(y) for y in x) + ")"
+        if isinstance(x, (set, frozenset)):
+            return "{" + ",".join(sorted(Symex.order_key(y) for y in x)) + "}"
+        if isinstance(x, dict):
+            return "{" + ",".join(sorted(f"{Symex.order_key(k)}:{Symex.order_key(v)}" for k, v in x.items())) + "}"
+        return repr(x)
+
+    def set_sequence(self, s):
+        seq = sorted(s, key=Symex.order_key)
+        if self.set_order:
+            seq.reverse()
+        return seq
+
     def __init__(self, model, inline=None, hooks=None, unroll=2, max_paths=512, max_steps=200000, what="?",
                  assume_asserts=True, isinstance_hook=None, attr_hook=None, max_depth=12, cut_loops=False,
                  oracle=None, occurrence=None, recursion_error=False, normalize=None, obj_identity=False):
@@ -701,6 +726,14 @@ class Symex:
 
     def iterate(self, it, node):
         """Python-level sequence of the elements of a value."""
+        if self.set_order is not None or self.iter_log is not None:
+            r = self.set_sequence(it) if self.set_order is not None and isinstance(it, (set, frozenset)) else self._iterate(it, node)
+            if self.iter_log is not None and node is not None and not isinstance(r, _CountSeq):
+                self.iter_log.setdefault(id(node), []).append(tuple(Symex.order_key(x) for x in r))
+            return r
+        return self._iterate(it, node)
+
+    def _iterate(self, it, node):
         if isinstance(it, dict):
             return list(it.keys())
         if isinstance(it, _CountSeq):
@@ -1214,7 +1247,9 @@ class Symex:
             return self.getattr(self.ev(n.value), n.attr, n)
         if isinstance(n, ast.Subscript):
             return self.subscript(n)
-        if isinstance(n, (ast.ListComp, ast.GeneratorExp, ast.SetComp)):
+        if isinstance(n, ast.GeneratorExp):
+            return self.genexp(n)
+        if isinstance(n, (ast.ListComp, ast.SetComp)):
             out = []
             self.comp(n.generators, 0, lambda: out.append(self.ev(n.elt)))
             return set(out) if isinstance(n, ast.SetComp) else out
@@ -1336,12 +1371,68 @@ class Symex:
         except TypeError:
             self.unsupported(n, f"subscript of {type(obj).__name__}")
 
-    def comp(self, gens, k, emit):
+    def genexp(self, n):
+        """A generator expression is lazy: only its outermost iterable is evaluated where the expression stands, the
+        conditions and the element when it is consumed.  It is evaluated here once (so every consumer sees a list) and
+        once more at its first consumption if a container or binding its body reads has changed in between."""
+        first = self.ev(n.generators[0].iter)
+        out = _GenList()
+        self.comp(n.generators, 0, lambda: out.append(self.ev(n.elt)), first=(first,))
+        targets = {x.id for g in n.generators for x in ast.walk(g.target) if isinstance(x, ast.Name)}
+        body = [n.elt] + [c for g in n.generators for c in g.ifs] + [g.iter for g in n.generators[1:]]
+        free = sorted({x.id for b in body for x in ast.walk(b) if isinstance(x, ast.Name)} - targets)
+        frames, module = list(self.frames), self.module
+
+        def recompute():
+            saved = (self.frames, self.module)
+            self.frames, self.module = list(frames), module
+            try:
+                fresh = []
+                self.comp(n.generators, 0, lambda: fresh.append(self.ev(n.elt)), first=(first,))
+                return fresh
+            finally:
+                self.frames, self.module = saved
+        return self._lazy_list(out, recompute, lambda: self._gen_state(frames, free))
+
+    def _lazy_list(self, out, recompute, state):
+        """``out`` (a _GenList holding the eagerly computed elements) is recomputed at its first consumption if
+        ``state()`` differs from what it is now."""
+        out._lazy = (self, recompute, state, state())
+        return out
+
+    def _callee_state(self, f):
+        """State a lazily applied function reads: the bindings of its free names in its closure."""
+        if not isinstance(f, Func) or not f.frames:
+            return ("id", id(f))
+        body = f.node.body if isinstance(f.node.body, list) else [f.node.body]
+        bound = {a.arg for a in f.node.args.args + f.node.args.kwonlyargs + f.node.args.posonlyargs}
+        free = sorted({x.id for b in body for x in ast.walk(b) if isinstance(x, ast.Name)} - bound)
+        return self._gen_state(f.frames, free)
+
+    def _gen_state(self, frames, names):
+        st = []
+        for nm in names:
+            for fr in reversed(frames):
+                if nm in fr:
+                    st.append((nm, _fingerprint(fr[nm])))
+                    break
+        return tuple(st)
+
+    def _gen_force(self, out):
+        _, recompute, state, then = out._lazy
+        out._lazy = None
+        if state() == then:
+            return
+        fresh = recompute()
+        list.clear(out)
+        list.extend(out, fresh)
+
+    def comp(self, gens, k, emit, first=None):
         if k == len(gens):
             emit()
             return
         g = gens[k]
-        it = self.ev(g.iter)
+        it = first[0] if (k == 0 and first is not None) else self.ev(g.iter)
         self.frames.append({}) if k == 0 else None
         try:
             for x in list(self.iterate(it, g.iter)):
@@ -1828,6 +1919,8 @@ class Symex:
 
     def ext_call(self, name, args, kw, node):
         short = name.split(".")[-1]
+        if self.set_order is not None and short in _ORDERED_READERS and any(isinstance(a, (set, frozenset)) for a in args):
+            args = [self.iterate(a, node) if isinstance(a, (set, frozenset)) else a for a in args]
         for hk in (name, short):
             if hk in self.hooks and callable(self.hooks[hk]):
                 r = self.hooks[hk](self, list(args), kw)
@@ -1849,18 +1942,30 @@ class Symex:
                     if len(args) > 2:
                         return args[2]
                     raise
+                except Raised as r:
+                    # an attribute hook modelling a closed object raises AttributeError: the default applies
+                    if r.name == "AttributeError" and len(args) > 2:
+                        return args[2]
+                    raise
         if name == "hasattr" and isinstance(args[0], Obj) and isinstance(args[1], str):
             return args[1] in args[0].attrs or bool(args[0].cls and self.find_method(args[0].cls, args[1]))
         if name == "type" and len(args) == 1 and (_plain(args[0]) or isinstance(args[0], (list, tuple, dict, set))):
             return Ext(type(args[0]).__name__)
         if name == "map":
-            return [self.call_value(args[0], list(xs) if len(args) > 2 else [xs], {}, node)
-                    for xs in (zip(*[self.iterate(a, node) for a in args[1:]]) if len(args) > 2
-                               else self.iterate(args[1], node))]
+            def do_map():
+                return [self.call_value(args[0], list(xs) if len(args) > 2 else [xs], {}, node)
+                        for xs in (zip(*[self.iterate(a, node) for a in args[1:]]) if len(args) > 2
+                                   else self.iterate(args[1], node))]
+            # map and filter are lazy: the function is applied when the result is consumed
+            return self._lazy_list(_GenList(do_map()), do_map,
+                                   lambda: (self._callee_state(args[0]), tuple(_fingerprint(a) for a in args[1:])))
         if name == "filter":
-            if args[0] is None:
-                return [x for x in self.iterate(args[1], node) if self.truth(x, node)]
-            return [x for x in self.iterate(args[1], node) if self.truth(self.call_value(args[0], [x], {}, node))]
+            def do_filter():
+                if args[0] is None:
+                    return [x for x in self.iterate(args[1], node) if self.truth(x, node)]
+                return [x for x in self.iterate(args[1], node) if self.truth(self.call_value(args[0], [x], {}, node))]
+            return self._lazy_list(_GenList(do_filter()), do_filter,
+                                   lambda: (self._callee_state(args[0]), _fingerprint(args[1])))
         if short in ("takewhile", "dropwhile", "filterfalse") and name in (short, "itertools." + short) and len(args) == 2 \
                 and not isinstance(args[1], T):
             out, state = [], short == "dropwhile"
@@ -1930,6 +2035,19 @@ class Symex:
                 and args and not isinstance(args[0], T) and all(isinstance(a, int) for a in args[1:]):
             import itertools
             return [tuple(p) for p in getattr(itertools, short)(list(self.iterate(args[0], node)), *args[1:])]
+        if short == "groupby" and name in ("groupby", "itertools.groupby") and args and not isinstance(args[0], (T, Obj)):
+            # consecutive runs of equal keys, as itertools does it (concrete keys only)
+            seq = list(self.iterate(args[0], node))
+            kf = kw.get("key", args[1] if len(args) > 1 else None)
+            keys = [x if kf is None else self.call_value(kf, [x], {}, node) for x in seq]
+            if not any(_has_sym(k) or isinstance(k, Obj) for k in keys):
+                out = []
+                for x, k in zip(seq, keys):
+                    if out and _eq(out[-1][0], k):
+                        out[-1][1].append(x)
+                    else:
+                        out.append((k, [x]))
+                return out
         if name in ("Rational", "sympy.Rational") and len(args) == 2 and all(is_num(a) for a in args) and args[1] != 0:
             return t_div(args[0], args[1])
         if short == "sqrt" and len(args) == 1 and (is_num(args[0]) or isinstance(args[0], T)):
@@ -1972,6 +2090,9 @@ class Symex:
         if short == "partial" and name in ("partial", "functools.partial") and args:
             f0, a0, k0 = args[0], list(args[1:]), dict(kw)
             return lambda sx, a, k: sx.call_value(f0, a0 + list(a), {**k0, **k}, node)
+        if short == "methodcaller" and name in ("methodcaller", "operator.methodcaller") and args and isinstance(args[0], str):
+            mname, margs, mkw = args[0], list(args[1:]), dict(kw)
+            return lambda sx, a, k: sx.call_method(a[0], mname, list(margs), dict(mkw), node)
         if short == "itemgetter" and name in ("itemgetter", "operator.itemgetter") and args:
             keys = list(args)
 
@@ -2118,6 +2239,13 @@ class Symex:
         return acc
 
     def container_method(self, o, attr, a, kw, node):
+        if self.set_order is not None:
+            if isinstance(o, set) and attr == "pop" and not a and o:
+                x = self.iterate(o, node)[0]
+                o.remove(x)
+                return x
+            if isinstance(o, str) and attr == "join" and a and isinstance(a[0], (set, frozenset)):
+                a = [self.iterate(a[0], node)] + list(a[1:])
         if isinstance(o, _DefaultDict):
             pass
         if isinstance(o, dict):
@@ -2323,6 +2451,11 @@ class _KeysView(list):
         return {k for k in self if k not in o}
 
 
+_ORDERED_READERS = {"list", "tuple", "enumerate", "zip", "reversed", "iter", "map", "filter", "chain", "from_iterable", "product",
+                    "permutations", "combinations", "combinations_with_replacement", "islice", "deque", "sorted", "next", "sum",
+                    "min", "max", "groupby", "dict", "Counter"}
+
+
 class _DefaultDict(dict):
     def __init__(self, factory, sx, node):
         super().__init__()
@@ -2445,6 +2578,78 @@ def _eq(a, b):
         return a is b or (type(a) is type(b) and a == b) or (_plain(a) and _plain(b) and a == b)
     except Exception:
         return False
+
+
+class _GenList(list):
+    """Value of a generator expression: the elements, re-evaluated at the first consumption if the state read by the
+    body changed after the expression was created (see Symex.genexp)."""
+    _lazy = None
+
+    def _force(self):
+        lz = self._lazy
+        if lz is not None:
+            lz[0]._gen_force(self)
+
+    def __iter__(self):
+        self._force()
+        return list.__iter__(self)
+
+    def __len__(self):
+        self._force()
+        return list.__len__(self)
+
+    def __getitem__(self, k):
+        self._force()
+        return list.__getitem__(self, k)
+
+    def __contains__(self, x):
+        self._force()
+        return list.__contains__(self, x)
+
+    def __eq__(self, o):
+        self._force()
+        return list.__eq__(self, o)
+
+    __hash__ = None
+
+    def __repr__(self):
+        self._force()
+        return list.__repr__(self)
+
+    def __deepcopy__(self, memo):
+        import copy
+        return [copy.deepcopy(x, memo) for x in self]
+
+    def __reduce__(self):
+        return (list, (list(self),))
+
+
+def _fingerprint(v, depth=4):
+    """Structural snapshot of a value: changes iff a container reachable from it was mutated or the value replaced."""
+    if isinstance(v, _GenList):
+        return ("gen", id(v))
+    if depth == 0 or isinstance(v, (Func, ClassRef, ModRef, Ext)):
+        return ("id", id(v))
+    if isinstance(v, list):
+        return ("list", id(v), tuple(_fingerprint(x, depth - 1) for x in v))
+    if isinstance(v, tuple):
+        return ("tuple", tuple(_fingerprint(x, depth - 1) for x in v))
+    if isinstance(v, (set, frozenset)):
+        try:
+            return ("set", id(v), frozenset(_fingerprint(x, depth - 1) for x in v))
+        except TypeError:
+            return ("set", id(v), len(v))
+    if isinstance(v, dict):
+        try:
+            return ("dict", id(v), tuple((_fingerprint(k, depth - 1), _fingerprint(x, depth - 1)) for k, x in v.items()))
+        except Exception:
+            return ("dict", id(v), len(v))
+    if isinstance(v, Obj):
+        return ("obj", id(v), tuple((k, _fingerprint(x, depth - 1)) for k, x in sorted(v.attrs.items(), key=lambda kv: kv[0])
+                                     if not callable(x)))
+    if isinstance(v, T) or _plain(v):
+        return v
+    return ("id", id(v))
 
 
 def _freeze(v):
